@@ -420,7 +420,15 @@ def thorough(ctx):
     ctx.r.note("re_crosscheck_strings", n)
 
 
-RULES = [rule_g1, rule_g2_g3, rule_g4, rule_g5, rule_uses]
+def rule_r9(ctx):
+    """Shared with C06.R4: a verdict of the acceptance tests is only worth something if it is acted upon - the receiver's
+    error (an invalid trailer line, chunk size or extension) is consulted by the parser before the receiver's completion,
+    stored as the parser's error and followed by completed=True."""
+    from . import c06
+    c06.rule_r4(ctx, rid="C10.R9")
+
+
+RULES = [rule_g1, rule_g2_g3, rule_g4, rule_g5, rule_uses, rule_r9]
 THOROUGH = [thorough]
 LEVEL = "other"
 
